@@ -132,7 +132,9 @@ pub fn features_case(c: &mut Choices) -> Case {
     if !f.on_attr {
         cands.push("transformOn");
     }
-    if !f.spread_or_repeat {
+    // an `on` / `nativeOn` object is lowered like a spread when transformOn is on, so it counts
+    // as a spread for mergeProps
+    if !f.spread_or_repeat && !f.on_attr {
         cands.push("mergeProps");
     }
     if !f.sole_ident_or_call_child {
@@ -338,6 +340,16 @@ impl Property for C14 {
             },
             _ => check_pair(case),
         }
+    }
+    fn extra_stage(
+        &self,
+        ctx: &mut Ctx,
+        stats: &mut crate::runner::Stats,
+    ) -> Result<Option<crate::runner::Violation>, String> {
+        if ctx.tier != Tier::Thorough {
+            return Ok(None);
+        }
+        crate::fuzzstage::fuzz_stage("C14", ctx, stats, 180, false)
     }
     fn required_labels(&self) -> Vec<&'static str> {
         vec![
